@@ -428,7 +428,28 @@ def DX():
         # a repeated centre (two bins with the same centre: data below it go to the first, data from it on to the second)
         {"t": "CentrallyBin", "p": [1.0, 1.0, 2.0], "q": "x", "v": sy},
     ]
-    return out
+    return out + EDGE()
+
+
+def EDGE():
+    """Degenerate but legal structural parameters: one bin, one threshold, no threshold at all, one cut, a negative
+    origin, a bin width far below / an offset far above the data, a one-member collection."""
+    cnt, sy, avg = {"t": "Count"}, {"t": "Sum", "q": "y"}, {"t": "Average", "q": "y"}
+    return [
+        {"t": "Bin", "p": [1, 0.0, 1.0], "q": "x", "v": sy},
+        {"t": "Bin", "p": [1, -0.5, 0.5], "q": "x", "v": cnt, "nf": sy},
+        {"t": "IrregularlyBin", "p": [0.0], "q": "x", "v": sy},
+        {"t": "IrregularlyBin", "p": [], "q": "x", "v": avg},
+        {"t": "Stack", "p": [0.5], "q": "x", "v": sy},
+        {"t": "Stack", "p": [], "q": "x", "v": cnt},
+        {"t": "CentrallyBin", "p": [0.0, 1.0], "q": "x", "v": sy},
+        {"t": "SparselyBin", "p": [1.0, -3.5], "q": "x", "v": sy},
+        {"t": "SparselyBin", "p": [2.0 ** -40, 0.0], "q": "x", "v": cnt},
+        {"t": "Bin", "p": [2, 2.0 ** 50, 2.0 ** 50 + 2.0], "q": "x", "v": sy},
+        {"t": "Label", "ch": {"only": sy}},
+        {"t": "Index", "ch": [avg]},
+        {"t": "Branch", "ch": [{"t": "UntypedLabel", "ch": {"only": sy}}]},
+    ]
 
 
 def NDX():
@@ -444,6 +465,9 @@ def NDX():
         {"t": "SparselyBin", "p": [1.0 / 3.0, 0.05], "q": "x", "v": {"t": "Count"}},
         {"t": "IrregularlyBin", "p": [0.1, 0.2, 0.3], "q": "x", "v": sy},
         {"t": "CentrallyBin", "p": [0.1, 0.2, 0.7], "q": "x", "v": sy},
+        # plain Counts: the np.histogram fast path must cut at the very midpoints fill compares with, (c1 + c2) / 2
+        {"t": "CentrallyBin", "p": [0.1, 0.7, 3.3], "q": "x", "v": {"t": "Count"}},
+        {"t": "CentrallyBin", "p": [0.1, 1.1], "q": "x", "v": {"t": "Count"}},
     ]
 
 
